@@ -212,15 +212,9 @@ def u5(led, rid, ctx):
                       "%s::post_predicate:%s" % (owner, v), g.span, "→ %s" % m,
                       "%s::post_predicate handles %s with %s (expected %s)" % (owner, v, sorted(rows.get(v, [])), m))
     # add_clause negates every literal before storing it as a nogood
-    ac = lib.method("ConstraintSatisfactionSolver", "add_clause")
-    ok = False
-    for g in ac.closures:
-        r0 = peel(resolver(g).local(0), calls=None)
-        if r0.k == "call" and r0.a.name == "not":
-            ok = True
-    sel = [c.name for c in ac.calls if c.name in ("filter", "skip", "take", "step_by", "dedup")]
-    led.check(ok and not sel, rid, "add_clause:negates-every-literal", ac.span, "maps every literal to its negation",
-              "add_clause does not turn every literal into its negation for the nogood (%s)" % (sel or "no negating map"))
+    ok, detail, site = clause_to_nogood_shape(lib)
+    led.check(ok, rid, "add_clause:negates-every-literal", site, "maps every literal to its negation",
+              "add_clause does not turn every literal into its negation for the nogood (%s)" % detail)
 
 
 def u5b(led, rid, ctx):
@@ -627,12 +621,11 @@ def u24(led, rid, ctx):
     led.floor(rid, "labels decided", n, 3)
 
 
-def u29(led, rid, ctx):
-    """CLAUSE-PASS-THROUGH: add_clause hands the nogood propagator exactly the negation of every
-    predicate it was given: between the `predicates` argument and add_nogood there is nothing but
-    into_iter / map(negation) / collect.  Any other function in that chain rewrites the clause, and
-    its correctness is a theorem about predicates no rule here has checked."""
-    lib = ctx.lib
+def clause_to_nogood_shape(lib):
+    """How add_clause turns its `predicates` into the nogood it stores.  Returns (ok, detail, site):
+    ok iff the nogood consists of exactly the negation of every given predicate, in one of the two
+    forms maintainers write: the iterator chain into_iter → map(|p| !p) → collect, or a loop that
+    pushes !p for every p of the iteration onto a fresh vector that is not touched otherwise."""
     fs = [f for f in lib.fns.values() if f.name == "add_clause" and "ConstraintSatisfactionSolver" in f.defn]
     if len(fs) != 1:
         raise AnchorMissing("ConstraintSatisfactionSolver::add_clause")
@@ -642,27 +635,67 @@ def u29(led, rid, ctx):
     if not cs:
         raise AnchorMissing("add_nogood in add_clause")
     PASS = ("collect", "map", "into_iter", "iter", "copied", "cloned", "into", "from_iter", "to_vec")
-    for c in cs:
-        e = R.operand(c.args[1])
-        names = [x.a.name for x in e.walk() if x.k == "call"]
+    c = cs[0]
+    e = R.operand(c.args[1])
+    names = [x.a.name for x in e.walk() if x.k == "call"]
+    if any(x.k == "arg" and x.a == 2 for x in e.walk()):
         other = [n_ for n_ in names if n_ not in PASS]
-        from_arg = any(x.k == "arg" and x.a == 2 for x in e.walk())
-        led.check(from_arg and not other, rid, "add_clause:chain", c.span, " → ".join(reversed(names)),
-                  "add_clause passes its predicates through %s before they reach add_nogood: the clause that is "
-                  "stored is a rewriting of the clause that was given (merged, filtered or reordered literals)"
-                  % (", ".join(other) or "a value that does not come from the `predicates` argument"))
-        negs = 0
-        for x in e.walk():
-            if x.k == "closure":
-                g = lib.fns.get(x.a)
-                rets = [p.ret for p in SymExec(g).run() if not p.diverged and p.ret is not None] if g else []
-                ok = bool(rets) and all(peel(r, calls=None).k == "call" and peel(r, calls=None).a.name == "not"
-                                        and peel(peel(r, calls=None).b[0], calls=None).k == "arg" for r in rets)
-                negs += 1
-                led.check(ok, rid, "add_clause:negation", c.span, "each predicate is mapped to its negation",
-                          "the closure add_clause maps over its predicates returns %s rather than the negation of "
-                          "its argument" % ([show(r)[:60] for r in rets],))
-        led.check(negs == 1, rid, "add_clause:one-map", c.span, "", "add_clause maps %d closures over its predicates" % negs)
+        if other:
+            return False, "passes its predicates through %s before they reach add_nogood" % ", ".join(other), c.span
+        clos = [x for x in e.walk() if x.k == "closure"]
+        if len(clos) != 1:
+            return False, "maps %d closures over its predicates" % len(clos), c.span
+        g = lib.fns.get(clos[0].a)
+        rets = [p.ret for p in SymExec(g).run() if not p.diverged and p.ret is not None] if g else []
+        ok = bool(rets) and all(peel(r, calls=None).k == "call" and peel(r, calls=None).a.name == "not"
+                                and peel(peel(r, calls=None).b[0], calls=None).k == "arg" for r in rets)
+        if not ok:
+            return False, "maps its predicates to %s rather than to their negation" % [show(r)[:60] for r in rets], c.span
+        return True, " → ".join(reversed(names)), c.span
+    # loop form: the argument is a vector built in this function
+    vec = root_local(f, c.args[1])
+    ctor = [d for d in f.whole_defs(vec) if d[0] == "call" and d[2].name in ("new", "with_capacity", "default")]
+    if vec is None or not ctor:
+        return False, "hands add_nogood %s, which is neither derived from `predicates` nor a vector built here" % show(e)[:60], c.span
+    pushes = 0
+    for x in f.calls:
+        if not x.args:
+            continue
+        tys = x.term.get("arg_tys") or [""]
+        if not tys[0].lstrip().startswith("&mut") or root_local(f, x.args[0]) != vec:
+            continue
+        if x.name in ("reserve", "shrink_to_fit"):
+            continue
+        if x.name != "push":
+            return False, "modifies the nogood with `%s` before it is stored" % x.name, x.span
+        v = peel(R.operand(x.args[1]), calls=None)
+        inner = peel(v.b[0], calls=None) if v.k == "call" and v.a.name == "not" and v.b else None
+        from_iter = inner is not None and any(y.k == "call" and y.a.name == "next" for y in inner.walk()) and \
+            any(y.k == "arg" and y.a == 2 for y in inner.walk()) and \
+            not any(y.k == "call" and y.a.name not in ("next", "into_iter", "iter", "copied", "cloned") for y in inner.walk())
+        if not from_iter:
+            return False, "pushes %s rather than the negation of the predicate being iterated" % show(v)[:70], x.span
+        # the push happens for every element: its block is dominated by the Some edge only
+        extra = [show(g.atom)[:50] for g in guards_of(f, x.bb)
+                 if not (g.kind == "variant" and g.val in ("Some",)) and not (g.kind == "variant" and g.neg)
+                 and any(y.k == "call" and y.a.name == "next" for y in g.atom.walk()) is False
+                 and f.cfg.reaches(x.bb, [g.edge.node], strict=True)]
+        if extra:
+            return False, "pushes the negation only if %s" % ", ".join(extra), x.span
+        pushes += 1
+    if pushes != 1:
+        return False, "has %d pushes onto the nogood" % pushes, c.span
+    return True, "for p in predicates { nogood.push(!p) }", c.span
+
+
+def u29(led, rid, ctx):
+    """CLAUSE-PASS-THROUGH: add_clause hands the nogood propagator exactly the negation of every
+    predicate it was given (iterator chain or push loop).  Anything else in between rewrites the
+    clause, and its correctness is a theorem about predicates no rule here has checked."""
+    ok, detail, site = clause_to_nogood_shape(ctx.lib)
+    led.check(ok, rid, "add_clause:chain", site, detail,
+              "add_clause %s: the clause that is stored is a rewriting of the clause that was given "
+              "(merged, filtered or reordered literals)" % detail)
 
 
 def run(ctx, led):
